@@ -127,7 +127,20 @@ class A2:
             elif slot == "drop":
                 ev["owner_drop"] += 1
             else:
-                ev["indirect"] += 1
+                # the slot is picked by a closure of the caller (`entry(bytes.vtable)(&bytes.data, ..)` with `entry: impl FnOnce(&Vtable) -> fn`):
+                # which slot it is is known where the helper is called
+                pk = None
+                if isinstance(x, tuple) and x and x[0] in ("call", "ucall") and x[1].rsplit("::", 1)[-1] in ("call_once", "call_mut", "call") and x[2]:
+                    c0 = x[2][0]
+                    while isinstance(c0, tuple) and c0 and c0[0] in ("ref", "deref"):
+                        c0 = c0[1]
+                    if isinstance(c0, tuple) and c0 and c0[0] == "param" and 1 <= c0[1] <= b.arg_count and any(
+                            isinstance(y, tuple) and y and y[0] == "field" and y[2] == "vtable" for y in walk(x)):
+                        pk = c0[1]
+                if pk is not None:
+                    ev["slot:param%d" % pk] += 1
+                else:
+                    ev["indirect"] += 1
             return ev, calls
         res = fn.get("res") or fn
         p = res["path"]
@@ -433,6 +446,17 @@ def param_slot_consuming(a2, b, pi):
                 continue
             sites += 1
             a = canon(eb.operand(t["args"][pi - 1], (bi, len(cb.blocks[bi]["stmts"]))))
+            if isinstance(a, tuple) and a and a[0] == "closure":
+                # `|vtable| vtable.into_mut`: what the closure returns
+                from .flow import return_expr
+                clb = a2.facts.by_did.get(a[1])
+                if clb is None:
+                    return False
+                ra = canon(return_expr(clb, a2.facts, inline=False))
+                names = [y[2] for y in walk(ra) if isinstance(y, tuple) and len(y) == 3 and y[0] == "field" and y[2] in ("clone", "into_vec", "into_mut", "is_unique", "drop")]
+                if len(names) != 1 or names[0] not in ("into_vec", "into_mut", "drop"):
+                    return False
+                continue
             names = [y[2] for y in walk(a) if isinstance(y, tuple) and len(y) == 3 and y[0] == "field" and y[2] in ("clone", "into_vec", "into_mut", "is_unique", "drop")
                      and any(isinstance(z, tuple) and len(z) == 3 and z[0] == "field" and z[2] == "vtable" for z in walk(y))]
             if len(names) != 1 or names[0] not in ("into_vec", "into_mut", "drop"):
@@ -649,6 +673,13 @@ def run(facts):
                 continue
             fn = callee(t)
             if fn is None:
+                # a consuming vtable slot called on the fields of the by-value handle (directly, or picked by the caller's closure / fn pointer)
+                ev_, _ = a2.block_events(b, bi, eb)
+                loc = (bi, len(blk["stmts"]))
+                if any(field_of_param(eb.operand(a, loc)) for a in t["args"]):
+                    for k_, n_ in ev_.items():
+                        if n_ and (k_ in ("slot:into_vec", "slot:into_mut", "slot:drop") or (k_.startswith("slot:param") and param_slot_consuming(a2, b, int(k_[len("slot:param"):])))):
+                            raw_blocks[bi] = "consuming vtable slot"
                 continue
             r = fn.get("res") or fn
             loc = (bi, len(blk["stmts"]))
@@ -769,7 +800,19 @@ def run(facts):
             fn = callee(t)
             if fn and fn["name"] == "new" and "tomic" in (fn.get("res") or fn)["path"] and "usize" in ((fn.get("res") or fn).get("full", "")).lower():
                 own_init = True
+        # a helper that only builds the control block (or its header: `OwnedLifetime::new::<T>()`) and hands it back by value mints no handle
+        # itself: the count is judged in the function that wraps a handle around the block - its callers, whose summaries include the helper's
+        out_ty = str(b.j.get("output") or b.locals[0]["ty"])
+        builds_block_only = own_init and b.kind in ("fn", "assoc_fn") and str(b.vis) != "Public" and ty_head(out_ty) in a2.cbs and out_ty not in a2.handles
         if not own_init:
+            for bi, t in b.calls():
+                fn = callee(t)
+                r_ = (fn.get("res") or fn) if fn else {}
+                cb_ = facts.by_did.get(r_.get("did")) if r_.get("local") else None
+                if cb_ is not None and cb_.kind in ("fn", "assoc_fn") and str(cb_.vis) != "Public" and ty_head(str(cb_.j.get("output") or cb_.locals[0]["ty"])) in a2.cbs \
+                        and any(inits(v) for v in a2.summary(cb_)):
+                    own_init = True
+        if not own_init or builds_block_only:
             continue
         for v, path in a2.summary(b).items():
             ii = inits(v)
@@ -782,7 +825,8 @@ def run(facts):
             how = ""
             if ii == ["1"] and handles == 1:
                 ok, how = True, "count 1 for the one handle returned"
-            elif ii == ["2"] and handles == 1 and get(v, "fresh") == 0:
+            elif ii == ["2"] and handles == 1 and get(v, "fresh") == 0 and any(
+                    s_["body"].did == b.did and s_["method"].startswith("compare_exchange") for s_ in a2.sites):
                 ok, how = True, "count 2: the existing handle and the one returned (published by CAS)"
             elif ii == ["2"] and get(v, "fresh") == 1 and get(v, "inc") == 1:
                 ok, how = True, "count 2 on a block that lost the race and was freed unpublished"
@@ -934,6 +978,25 @@ def run(facts):
                 sub = a2.summary(cb)
                 if any(get(v, "rel") or get(v, "owner_drop") for v in sub) and all(get(v, "rel") or get(v, "owner_drop") for v in sub):
                     k.add("rel")
+                    # a helper that takes the buffer over before it gives the reference up (`take_vec_and_release`: mem::replace(&mut (*p).vec, ..)
+                    # then release_shared(p)): for the caller the buffer is taken when the reference goes
+                    ebc = ExprBuilder(cb, facts, inline=False)
+                    cfgc = cfg_of(cb)
+                    rel_b, take_b = [], []
+                    for cbi, cblk in enumerate(cb.blocks):
+                        if cblk["cleanup"]:
+                            continue
+                        cev, _ = a2.block_events(cb, cbi, ebc)
+                        if cev.get("rel") or cev.get("owner_drop"):
+                            rel_b.append(cbi)
+                        if cev.get("teardown") or cev.get("buf_own"):
+                            take_b.append(cbi)
+                        ct = cblk["term"]
+                        cfn = callee(ct) if ct["k"] == "call" else None
+                        if cfn is not None and (cfn.get("res") or cfn)["path"] in ("core::mem::replace", "core::mem::take", "core::mem::swap"):
+                            take_b.append(cbi)
+                    if rel_b and take_b and all(any(cfgc.dominates(tb, rb) for tb in take_b) for rb in rel_b):
+                        k.add("take")
             if t["k"] == "call":
                 fn = callee(t)
                 if fn is not None:
